@@ -65,23 +65,32 @@ def _edge_design(r, die):
 
 def _gen_design_client(r, scale_exp, family):
     die = designs.gen_die(r, family=family, scale_exp=scale_exp)
-    nl = designs.gen_netlist(r, die, allow_terminals=True)
+    terminals = r.chance(0.3)
+    nl = designs.gen_netlist(r, die, allow_terminals=terminals, need_centers=True)
     edge = _edge_design(r, die)["edge"] if r.chance(0.35) else None
     ops = []
     via = lambda: r.weighted([("tree", 3), ("text", 2), ("file", 2)])
-    k = r.below(10)
     ops.append({"op": "load_net", "via": via()})
-    if r.chance(0.85):
-        ops.append({"op": "load_die", "via": via(), "with_net": r.chance(0.7)})
+    have_die = r.chance(0.9)
+    if have_die:
+        ops.append({"op": "load_die", "via": via(), "with_net": r.chance(0.85)})
+        if r.chance(0.6):
+            ops.append({"op": "split", "r": r.choice([1.42, 1.5, 2, 3]), "n": r.randint(1, 10)})
+    # an allocation to work on: the design's own initial allocation, or a document
+    if have_die and r.chance(0.7):
+        ops.append({"op": "init_alloc", "zero": r.chance(0.2)})
+    else:
+        ops.append({"op": "load_alloc", "alloc": designs.gen_allocation(r, family=family, scale_exp=scale_exp, allow_fixed=False),
+                    "via": via()})
     for _ in range(r.randint(1, 6)):
         k = r.below(100)
-        if k < 14:
+        if k < 8:
             ops.append({"op": "split", "r": r.choice([1.42, 1.5, 2, 3]), "n": r.randint(1, 10)})
-        elif k < 26:
+        elif k < 14:
             ops.append({"op": "init_alloc", "zero": r.chance(0.2)})
-        elif k < 36:
+        elif k < 32:
             ops.append({"op": "refine", "t": r.choice([0.5, 0.7, 0.9, 0.95, 1.0]), "levels": r.randint(1, 2)})
-        elif k < 42:
+        elif k < 40:
             ops.append({"op": "uniform"})
         elif k < 50:
             ops.append({"op": "griddify"})
@@ -92,14 +101,14 @@ def _gen_design_client(r, scale_exp, family):
         elif k < 80:
             ops.append({"op": "load_alloc", "alloc": designs.gen_allocation(r, family=family, scale_exp=scale_exp, allow_fixed=False),
                         "via": via()})
-        elif k < 86:
+        elif k < 84:
             ops.append({"op": "legal_model", "t0": r.choice([0.9, 0.9, 0.5]), "dt": r.choice([0.3, 0.3, 0.05, 1.0]),
                         "ratio": r.choice([2.0, 3.0])})
-        elif k < 90:
+        elif k < 87:
             ops.append({"op": "legal_verdicts"})
-        elif k < 93:
+        elif k < 89:
             ops.append({"op": "legal_time", "amount": r.choice([1, 5, 30])})
-        elif k < 97:
+        elif k < 95:
             ops.append({"op": "load_net", "via": via()})
         else:
             ops.append({"op": "strop", "matrix": _gen_matrix(r)})
@@ -462,7 +471,9 @@ class _DesignClient:
                     return "skipped"
                 self.alloc = a.uniform_refinement_depth()
             else:
-                if a.num_rectangles > 40:
+                nxs = len({x.rect.center.x - x.rect.shape.w / 2 for x in a.allocations} | {x.rect.center.x + x.rect.shape.w / 2 for x in a.allocations})
+                nys = len({x.rect.center.y - x.rect.shape.h / 2 for x in a.allocations} | {x.rect.center.y + x.rect.shape.h / 2 for x in a.allocations})
+                if nxs * nys > 400:
                     return "skipped"
                 self.alloc = a.griddify()
             return sem.alloc_sem(self.alloc)
@@ -632,7 +643,7 @@ def _exec(arg):
                         if len(fs.fired) > nf:
                             rec["fault"] = fs.fired[-1]["kind"]
                         fs.plan = []
-                rec.update(out="ok", digest=digest(res), short=_short(res))
+                rec.update(out="ok", digest=digest(res), short=_short(res), skipped=(res == "skipped"))
             except Exception as e:
                 rec.update(out="raised", digest="exc:" + type(e).__name__, short=repr(e)[:160])
                 if rec["fault"] in ("enoent", "eio_read"):
@@ -678,6 +689,8 @@ def run_case(case):
     for i, rec in enumerate(inter):
         c = rec["c"]
         ops_count[rec["op"]] = ops_count.get(rec["op"], 0) + 1
+        if rec.get("skipped"):
+            probe("op_skipped_" + rec["op"])
         if rec.get("fault"):
             fired[rec["fault"]] = fired.get(rec["fault"], 0) + 1
         if rec["out"] == "raised" and case["clients"][c]["kind"] == "reject":
